@@ -1,37 +1,56 @@
 (* C04 — mutating commands have exactly their intended effect over any command history.
    Property theorems only; each is closed by [exact <lemma>] and followed by Print Assumptions.
-   Model: Model/Commands.v (exec_simple) over Model/Reconcile.v and Model/Parser.v.
-   The abstract model works on parsed records (Proofs/CommandsRefine.v):
+   Model: Model/Commands.v ([exec], [exec_simple]) over Model/Reconcile.v and Model/Parser.v.
+
+   THE ABSTRACT MODEL works on parsed records (Proofs/CommandsRefine.v, CommandsStop.v, CommandsPause.v, CommandsHistory.v):
      add_entry e r            the record r with the entry e added at its end
-     insert_record r rs       the records rs with r put at the place klog gives a new record (before the first record
-                              when it is dated earlier, otherwise after the record [new_record_position] selects)
-     a_add_entry cfg d fmt e  add e to the first record dated d; when there is none, insert a new record holding e,
-                              with the configured should-total and the date written with the separator the file uses
-     a_add_entry_ok           the model rejects a second open range in a record
-     a_close_in / a_stop      close the FIRST open range of the record at the given time (rejected when the end lies
-                              before the start), keeping its dash spacing, the end written in the record's / the
-                              file's clock convention; summary text is appended: the first line joins the entry's last
-                              line, the others follow (append_summary)
+     insert_record r rs       rs with r put where klog puts a new record: before the first record when it is dated
+                              earlier, otherwise after the record [new_record_position] selects (the last record not
+                              dated later, for a file in date order)
+     a_add_entry / a_track    add the entry to the FIRST record dated d; without one, insert a new record holding it,
+                              with the configured should-total and the date written with the separator most records use;
+                              a second open range in a record is rejected
+     a_start                  resolve the summary (--summary / --resume / --resume-nth: [resolve_summary], a function of
+                              the records), refuse a second open range, add the open range - written in the clock
+                              convention, dash spacing and placeholder length the target record / the file uses
+     a_stop                   the first record dated d - or, when there is none and neither date nor time was selected,
+                              the first record of the day before with the time 24h later - gets its open range closed
+                              (a_close_in): a range from the open range's start to the given time, keeping the dash
+                              spacing, rejected when it would end before it starts; summary text is appended: the first
+                              line joins the entry's last line, the others follow (append_summary)
      a_switch                 a_close_in, then an open range starting at the same time, in the same record
-     a_start                  resolve the summary (--summary / --resume / --resume-nth, on the records), refuse a second
-                              open range, add the open range - written in the clock convention, dash spacing and
-                              placeholder length the target record / the file uses (a_open_range) - like a_add_entry
-   The files quantified over are the specification-conforming ones: [spec_state file recs] says that the lines of
+     a_pause                  today's record, else yesterday's: a pause entry `-0m` with the given summary and the open
+                              range's tags (or, with --extend, nothing yet); then per clock reading the last non-positive
+                              duration entry of that record is decreased by the newly completed whole minutes
+     a_exec / a_exec_history  the above behind one command type [scommand]; a history threads the records through
+   Dates, times and roundings are resolved by [at_date] / [at_time], whose meaning is C17.
+
+   THE FILES quantified over are the specification-conforming ones: [spec_state file recs] says that the lines of
    [file] are the lines of the specification records [recs] (Spec/Spec.v: any blank lines before / between / after the
    records, any of the four indentations per record, LF or CRLF per line, last line with or without newline), and that
    an unterminated last line does not end in a carriage return. Every rendered well-formed specification document is
-   one (C04_spec_files_exist); by C01 these are the files the parser is specified to accept. Each theorem also says
-   that the result is again such a file, so the statements chain over histories.
+   one (C04_spec_files_exist); by C01 these are the files the parser is specified to accept. Every theorem returns such
+   a file again, which is what makes the statements chain (C04_history_refines).
 
-   PARTIAL. Covered: create, track, start (each into an existing record and into a record that is created), stop
-   (with the yesterday fallback and an appended summary), switch. Not yet covered: pause; the lift to whole histories
-   (each theorem returns a [spec_state] again, so the lift is an induction once pause is in); the converse direction
-   `the model rejects -> the command fails and changes nothing' beyond what C05 gives (no file is written on failure).
-   The refinement is stated for arguments that are themselves specification-conforming (an entry text that is a
-   specification entry, summary lines that are specification summary lines, none ending in a carriage return). *)
+   THE ARGUMENTS are specification objects too ([scommand], [step_pre]): the entry given to `track` is a specification
+   entry; summary lines are specification summary lines; none ends in a carriage return (inserted before a bare LF it
+   would be read back as part of a CRLF ending: finding K2); valid dates and times; should-totals within int64.
+   Three requirements concern the file: no open-range line ends in a blank directly after the placeholder (such a
+   line reads back like one without the blank, but text appended by `stop` would then start with it - no model on the
+   parsed data can tell the two apart); the summaries `--resume` may pick up are free of trailing carriage returns
+   ([summaries_ok]); the open range's tags as `pause` prints them are well-formed text ([tags_ok]).
+
+   PARTIAL in this sense: proved is `the model accepts -> the command succeeds and re-reading the file yields exactly
+   the model's records' for all six commands and for histories (C04_exec_refines_partial, C04_history_refines_partial),
+   and `the model rejects -> the command fails with the same error and the file is unchanged' for start, stop and
+   switch (C04_exec_rejects_partial: second open range, nothing to stop, end before start, no record, unknown entry to
+   resume, impossible time). Not proved: the rejecting direction for track (a second open range is caught by the
+   safeguard re-parse, which needs the rejection half of C01 at line level) and pause; and the extension from
+   specification-conforming files to all files the parser accepts (again the rejection half of C01). *)
 From Klog Require Import Base.Prelude Base.Utf8 Model.Calendar Model.Values Model.Record Model.Lines Model.Parser
   Model.Reconcile Model.Commands Proofs.Values Spec.Spec Proofs.SpecEntry Proofs.SpecRecord Proofs.SpecDoc
-  Proofs.Reconcile Proofs.Commands Proofs.Rounding Proofs.CommandsSpec Proofs.CommandsRefine Proofs.CommandsStop.
+  Proofs.Reconcile Proofs.Commands Proofs.Rounding Proofs.CommandsSpec Proofs.CommandsRefine Proofs.CommandsStop
+  Proofs.CommandsPause Proofs.CommandsHistory Proofs.CommandsReject.
 Open Scope Z_scope.
 
 (* the files: every rendered well-formed specification document whose last line is terminated or does not end in CR *)
@@ -47,7 +66,37 @@ Theorem C04_spec_state_parse : forall file recs, spec_state file recs ->
 Proof. intros file recs (lead & gs & C & _). eexists. exact (spec_file_parse _ _ _ _ C). Qed.
 Print Assumptions C04_spec_state_parse.
 
-(* create: succeeds, and re-reading the file yields the records with the new one at its place *)
+(* ---------- the property, one command: whenever the model accepts, the command succeeds, the file it writes is again
+   a conforming one, and re-reading it yields exactly the model's records ---------- *)
+Theorem C04_exec_refines_partial : forall now cfg sc file recs rs',
+  spec_state file recs -> step_pre now cfg sc recs ->
+  a_exec now cfg sc (denote_recs recs) = COk rs' ->
+  exists file' recs',
+    exec now cfg (to_command sc) file = (file', COk tt) /\
+    spec_state file' recs' /\ denote_recs recs' = rs' /\
+    exists bs', parse_text file' = Ok (Parsed (denote_recs recs') bs').
+Proof. exact exec_refines. Qed.
+Print Assumptions C04_exec_refines_partial.
+
+(* ---------- the property, any history: the file produced by one command is the input of the next ---------- *)
+Theorem C04_history_refines_partial : forall cfg h file recs rs',
+  spec_state file recs -> history_pre cfg h file ->
+  a_exec_history cfg h (denote_recs recs) = COk rs' ->
+  exists recs', spec_state (exec_history cfg h file) recs' /\ denote_recs recs' = rs' /\
+    exists bs', parse_text (exec_history cfg h file) = Ok (Parsed rs' bs').
+Proof. exact history_refines. Qed.
+Print Assumptions C04_history_refines_partial.
+
+(* ---------- a command the model rejects fails, with the model's error, and changes nothing (start, stop, switch) ---------- *)
+Theorem C04_exec_rejects_partial : forall now cfg sc file recs e, rejecting sc = true ->
+  spec_state file recs -> step_pre now cfg sc recs ->
+  a_exec now cfg sc (denote_recs recs) = CErr e ->
+  exec now cfg (to_command sc) file = (file, CErr e).
+Proof. exact exec_rejects. Qed.
+Print Assumptions C04_exec_rejects_partial.
+
+(* ---------- the commands one by one ---------- *)
+
 Theorem C04_create_refines : forall now cfg ds should srunes file recs d,
   spec_state file recs -> at_date now ds = Ok d -> valid_cdate (dt d) = true ->
   let should' := match should with Some m => Some m | None => cfg_should cfg end in
@@ -62,7 +111,6 @@ Theorem C04_create_refines : forall now cfg ds should srunes file recs d,
 Proof. exact create_refines. Qed.
 Print Assumptions C04_create_refines.
 
-(* track: whenever the model accepts, the command succeeds and re-reading the file yields the model's records *)
 Theorem C04_track_refines : forall now cfg ds file recs d se,
   spec_state file recs -> at_date now ds = Ok d -> valid_cdate (dt d) = true -> should_fits (cfg_should cfg) ->
   wf_entry se = true -> no_cr_lines (entry_arg se) ->
@@ -75,9 +123,6 @@ Theorem C04_track_refines : forall now cfg ds file recs d se,
 Proof. exact track_refines. Qed.
 Print Assumptions C04_track_refines.
 
-(* start: whenever the model accepts (no open range yet, the summary resolves), the command succeeds and re-reading the
-   file yields the model's records. [summaries_ok]: whatever summary the arguments resolve to - the given text or the
-   summary of an entry of the file - is made of specification summary lines not ending in a carriage return *)
 Theorem C04_start_refines : forall now cfg a s file recs d t rs',
   spec_state file recs -> at_date now (a_date a) = Ok d -> at_time now cfg a = COk t -> valid_time t ->
   valid_cdate (dt d) = true -> should_fits (cfg_should cfg) ->
@@ -90,10 +135,6 @@ Theorem C04_start_refines : forall now cfg a s file recs d t rs',
 Proof. exact start_refines. Qed.
 Print Assumptions C04_start_refines.
 
-(* stop: whenever the model accepts (a record of the target date - or, without date and time selection, of the day
-   before - with an open range that does not start after the end time), the command succeeds and re-reading the file
-   yields the model's records. [open_entry_ok]: no open range line ends in a blank directly after the placeholder
-   (such a line reads back like one without the blank, but appended text would start with it). *)
 Theorem C04_stop_refines : forall now cfg a summary add_r file recs d t y rs',
   spec_state file recs -> at_date now (a_date a) = Ok d -> at_time now cfg a = COk t -> valid_time t ->
   plus_days (dt d) (-1) = Ok y -> valid_cdate (dt d) = true ->
@@ -107,7 +148,6 @@ Theorem C04_stop_refines : forall now cfg a summary add_r file recs d t y rs',
 Proof. exact stop_refines. Qed.
 Print Assumptions C04_stop_refines.
 
-(* switch: the stop half and the start half, in one write *)
 Theorem C04_switch_refines : forall now cfg a s file recs d t rs',
   spec_state file recs -> at_date now (a_date a) = Ok d -> at_time now cfg a = COk t -> valid_time t ->
   (forall rg, In rg recs -> open_entry_ok (fst rg)) ->
@@ -119,3 +159,130 @@ Theorem C04_switch_refines : forall now cfg a s file recs d t rs',
     exists bs', parse_text file' = Ok (Parsed (denote_recs recs') bs').
 Proof. exact switch_refines. Qed.
 Print Assumptions C04_switch_refines.
+
+(* pause, with all its clock readings: the entry after the ticks holds minus the whole minutes completed (the
+   accumulation is [a_pause_loop]: an increment is written only when floor(t/60) exceeds what was captured so far, so a
+   clock that jumps backwards writes nothing) *)
+Theorem C04_pause_refines : forall now cfg summary sr no_tags extend ticks file recs y rs',
+  spec_state file recs -> plus_days (now_date now) (-1) = Ok y ->
+  match summary with Some s => s | None => [] end = map utf8_encode sr ->
+  match sr with [] => True | s0r :: mr => text_ok s0r = true /\ forallb (fun t => text_ok t && negb (all_blank t)) mr = true end ->
+  no_cr_lines (map utf8_encode sr) -> tags_ok recs ->
+  a_pause (now_date now) y summary no_tags extend ticks (denote_recs recs) = COk rs' ->
+  exists file' recs',
+    exec now cfg (Pause summary no_tags extend ticks) file = (file', COk tt) /\
+    spec_state file' recs' /\ denote_recs recs' = rs' /\
+    exists bs', parse_text file' = Ok (Parsed (denote_recs recs') bs').
+Proof. exact pause_refines. Qed.
+Print Assumptions C04_pause_refines.
+
+(* a record inserted by the model sits where [insert_record] says, and changing it there is changing the insertion *)
+Theorem C04_insert_record_place : forall x rs, nth_error (insert_record x rs) (insert_index (dt (rec_date x)) rs) = Some x.
+Proof. exact insert_record_nth. Qed.
+Print Assumptions C04_insert_record_place.
+
+(* a new record is placed chronologically: a file in date order stays in date order *)
+Theorem C04_create_keeps_sorted : forall x rs, Proofs.Calendar.wf_date (dt (rec_date x)) -> dates_wf rs -> date_sorted rs ->
+  date_sorted (insert_record x rs).
+Proof. exact insert_record_sorted. Qed.
+Print Assumptions C04_create_keeps_sorted.
+
+(* [summaries_ok] follows from: the --summary text is conforming, and no summary line of the file ends in a carriage return *)
+Theorem C04_summaries_ok_of : forall s recs,
+  forallb (fun rg => wf_record (fst rg)) recs = true ->
+  match s_text s with Some text => summary_ok text | None => True end ->
+  (forall rg se, In rg recs -> In se (sr_entries (fst rg)) -> no_cr_lines (e_summary (denote_entry se))) ->
+  summaries_ok s (denote_recs recs).
+Proof. exact summaries_ok_of. Qed.
+Print Assumptions C04_summaries_ok_of.
+
+(* ---------- non-vacuity: a file, a history with all kinds of effects, the model's prediction, and the real run ---------- *)
+Definition ex_t (h m : Z) : s_time := {| st_shift := 0; st_hh := h; st_pad := false; st_mm := m; st_clock := C24 |}.
+Definition ex_doc : s_doc :=
+  {| do_lead := [];
+     do_records :=
+       [ ({| sr_date := {| sd_year := 2020; sd_month := 1; sd_day := 1; sd_dash := true |};
+             sr_should := None; sr_trail := []; sr_summary := []; sr_indent := I2;
+             sr_entries := [ {| se_value := SDur {| du_sign := SNone; du_h := Some b!"1"; du_m := None |}; se_first := Some b!"read"; se_more := [] |};
+                             {| se_value := SOpen (ex_t 8 0) 1 1 0; se_first := Some b!"work #klog"; se_more := [] |} ] |}, []) ];
+     do_crlf := fun _ => false;
+     do_final_newline := true |}.
+
+Definition ex_cfg : config := {| cfg_round := None; cfg_should := Some 480; cfg_dashes := None; cfg_24h := None |}.
+Definition ex_clock (day h m : Z) : Commands.clock := {| now_date := {| c_year := 2020; c_month := 1; c_day := day |}; now_h := h; now_m := m |}.
+Definition ex_args : at_args := {| a_date := DDefault; a_time := None; a_round := None |}.
+
+Definition ex_history : history :=
+  [ (ex_clock 1 9 30, SPause None false false [30; 70; 10; 130]);                     (* a pause of 2 whole minutes, with a backwards jump *)
+    (ex_clock 1 12 0, SStop ex_args (Some [b!"done"; b!"more"]));                     (* closed at 12:00, two summary lines added *)
+    (ex_clock 2 8 15, SStart ex_args {| s_text := None; s_resume := true; s_nth := 0 |});   (* a new record, the summary resumed *)
+    (ex_clock 2 9 0, STrack (DExplicit {| dt := {| c_year := 2019; c_month := 12; c_day := 31 |}; dt_dashes := false |})
+                            {| se_value := SDur {| du_sign := SNone; du_h := None; du_m := Some b!"45" |}; se_first := None; se_more := [] |}) ].
+
+Example ex_file_is_conforming : spec_state (render ex_doc) (do_records ex_doc).
+Proof.
+  apply C04_spec_files_exist; [vm_compute; reflexivity|].
+  apply last_line_safe_terminated. intros pre l E. vm_compute in E.
+  repeat (destruct pre as [|? pre]; [injection E as <-; discriminate|injection E as _ E]). destruct pre; discriminate E.
+Qed.
+
+Example ex_file : render ex_doc = b!"2020-01-01
+  1h read
+  8:00 - ? work #klog
+".
+Proof. vm_compute. reflexivity. Qed.
+
+(* the model accepts the history ... *)
+Example ex_model_accepts : exists rs', a_exec_history ex_cfg ex_history (denote_recs (do_records ex_doc)) = COk rs' /\ length rs' = 3%nat.
+Proof. eexists. split; [vm_compute; reflexivity|reflexivity]. Qed.
+
+(* ... and this is what the real commands make of the file *)
+Example ex_run : exec_history ex_cfg ex_history (render ex_doc) = b!"2019/12/31 (8h!)
+  45m
+
+2020-01-01
+  1h read
+  8:00 - 12:00 work #klog done
+    more
+  -2m #klog
+
+2020-01-02 (8h!)
+  8:15 - ? #klog
+".
+Proof. vm_cast_no_check (@eq_refl bytes (exec_history ex_cfg ex_history (render ex_doc))). Qed.
+
+(* the hypotheses of the one-step theorem are satisfiable: `stop -s ...` on the example file *)
+Example ex_step_pre : step_pre (ex_clock 1 12 0) ex_cfg (SStop ex_args (Some [b!"done"; b!"more"])) (do_records ex_doc)
+  /\ exists rs', a_exec (ex_clock 1 12 0) ex_cfg (SStop ex_args (Some [b!"done"; b!"more"])) (denote_recs (do_records ex_doc)) = COk rs'.
+Proof.
+  split; [|eexists; vm_compute; reflexivity].
+  cbn [step_pre]. split; [|split; [|split]].
+  - intros d H. vm_compute in H. injection H as <-. reflexivity.
+  - intros t H. vm_compute in H. injection H as <-. unfold valid_time. cbn. lia.
+  - split; [split; reflexivity|reflexivity].
+  - intros rg [<-|[]] se Hin Ho. cbn in Hin. destruct Hin as [<-|[<-|[]]]; [discriminate Ho|]. intros E. discriminate E.
+Qed.
+
+(* ... and those of the history theorem: a history of track and create (whose requirements do not depend on the file) *)
+Definition ex_history2 : history :=
+  [ (ex_clock 2 9 0, STrack DDefault {| se_value := SDur {| du_sign := SNone; du_h := None; du_m := Some b!"45" |}; se_first := Some b!"walk"; se_more := [b!"in the park"] |});
+    (ex_clock 2 9 5, SCreate DTomorrow (Some 0) [b!"Public holiday"]);
+    (ex_clock 2 9 9, STrack DYesterday {| se_value := SRange (ex_t 13 0) 0 0 (ex_t 14 30); se_first := None; se_more := [] |}) ].
+
+Example ex_history2_pre : history_pre ex_cfg ex_history2 (render ex_doc).
+Proof.
+  assert (Hsh : should_fits (cfg_should ex_cfg)) by (unfold should_fits, ex_cfg, max_int64; cbn [cfg_should]; lia).
+  unfold ex_history2. cbn [history_pre]. split; [|split; [|split; [|exact I]]]; intros recs _; cbn [step_pre].
+  - split; [intros d H; vm_compute in H; injection H as <-; reflexivity|]. split; [exact Hsh|]. split; reflexivity.
+  - split; [intros d H; vm_compute in H; injection H as <-; reflexivity|]. split; [unfold should_fits, max_int64; lia|]. split; reflexivity.
+  - split; [intros d H; vm_compute in H; injection H as <-; reflexivity|]. split; [exact Hsh|]. split; reflexivity.
+Qed.
+
+Example ex_history2_model : exists rs', a_exec_history ex_cfg ex_history2 (denote_recs (do_records ex_doc)) = COk rs' /\ length rs' = 3%nat.
+Proof. eexists. split; [vm_compute; reflexivity|reflexivity]. Qed.
+
+(* a rejection: `start` on the example file, whose record has an open range *)
+Example ex_start_rejected :
+  a_exec (ex_clock 1 9 0) ex_cfg (SStart ex_args {| s_text := None; s_resume := false; s_nth := 0 |}) (denote_recs (do_records ex_doc)) = CErr CEManipulation
+  /\ exec (ex_clock 1 9 0) ex_cfg (Start ex_args {| s_text := None; s_resume := false; s_nth := 0 |}) (render ex_doc) = (render ex_doc, CErr CEManipulation).
+Proof. split; [vm_compute; reflexivity|]. vm_cast_no_check (@eq_refl (bytes * cresult unit) (render ex_doc, CErr CEManipulation)). Qed.
